@@ -357,8 +357,10 @@ def r12_4(ctx):
                 ok = False
                 if isinstance(d.right, ast.Constant) and d.right.value:
                     ok = True
+                from ..astutil import expr_facts as _expr_facts
+                inner = _expr_facts(f.module, d)
                 for nid in g.nodes_of(st):
-                    for t, v in g.branch_facts(nid):
+                    for t, v in list(g.branch_facts(nid)) + inner:
                         tt = norm(t)
                         if v is False and tt in (f"not {den}", f"{den} == 0", f"{den} == 0.0", f"0 == {den}"):
                             ok = True
